@@ -172,7 +172,9 @@ def case_script(seed, out, spec, wd):
             protos.insert(r.randrange(0, len(protos) + 1),
                           TracePointConfig(ID='bad-%s-%d' % (hsh, b), path=base, line_number=lines[0],
                                            args={'stage': 'no_such_stage'}))
-        return PollResponse(ts_nanos=request.ts_nanos, current_hash=hsh, response=protos,
+        # the time stamp is the service's (its clock, or the replica that answered): it need not move forward
+        ts = r.pick([request.ts_nanos, request.ts_nanos, request.ts_nanos - 5_000_000_000, 1, request.ts_nanos + 10 ** 9])
+        return PollResponse(ts_nanos=ts, current_hash=hsh, response=protos,
                             response_type=ResponseType.UPDATE)
 
     grpc.channel.on_call = on_call
@@ -183,11 +185,17 @@ def case_script(seed, out, spec, wd):
     match = lambda f: f.endswith(os.path.join('deep', 'config', 'tracepoint_config.py')) or f.endswith(  # noqa
         os.path.join('deep', 'task', '__init__.py'))
     reg_lock = threading.Lock()
+    # the calls come from several application threads, one at a time: the property quantifies over sequences of
+    # register / unregister calls and interleavings of the background tasks, not over callers racing each other
+    api_lock = threading.Lock()
+    unregistered = []
 
     def do_register(line):
-        reg_counter[0] += 1
-        mark = 'reg-%d' % reg_counter[0]
-        hid = config.tracepoints.add_custom(base, line, {'fire_count': '-1', 'fire_period': '0'}, ['"%s"' % mark], [])
+        with reg_lock:     # (two registering threads must not be given the same mark)
+            reg_counter[0] += 1
+            mark = 'reg-%d' % reg_counter[0]
+        with api_lock:
+            hid = config.tracepoints.add_custom(base, line, {'fire_count': '-1', 'fire_period': '0'}, ['"%s"' % mark], [])
         with reg_lock:
             handles.append((mark, hid))
             live[mark] = line
@@ -198,7 +206,9 @@ def case_script(seed, out, spec, wd):
                 return
             mark, hid = r.pick(handles)
             live.pop(mark, None)
-        config.tracepoints.remove_custom(hid)
+            unregistered.append(mark)
+        with api_lock:
+            config.tracepoints.remove_custom(hid)
 
     failed_polls = 0
     with inject.LineInjector(match, yld) as inj:
@@ -269,7 +279,9 @@ def case_script(seed, out, spec, wd):
     witness = {'script': [s[:2] + ((len(s[2]), 'bad=%d' % s[3], 'parked' if s[4] else '') if s[0] == 'update' else ())
                           for s in script], 'applied_order': applied, 'parked': parked_log,
                'installed_observed': sorted(acted), 'model': sorted(want), 'reported_hash': final_hash,
-               'model_hash': model_hash[0]}
+               'model_hash': model_hash[0], 'registered': [m for m, _ in handles], 'unregistered': unregistered,
+               'registrations_the_service_object_still_holds': len(config.tracepoints._custom)
+               if hasattr(config.tracepoints, '_custom') else None}
     if exc is not None or res != 6 or rig.escapes:
         out.violation('containment:escape', 'probe outcome %r / %r / %s' % (res, exc, rig.escapes[:1]), witness, replay)
     for mech, what in problems:
